@@ -550,7 +550,7 @@ fn race_unlink(inst: &Inst, io: &Io, op: &[&str], orc: &mut Vec<(String, String)
         // wait until the second client is parked — or has finished without getting there
         let t0 = std::time::Instant::now();
         let mut parked = false;
-        while t0.elapsed() < Duration::from_millis(400) {
+        while t0.elapsed() < Duration::from_secs(60) {
             if entered_rx.try_recv().is_ok() {
                 parked = true;
                 break;
